@@ -276,9 +276,14 @@ impl Incremental {
             self.store.set_tests(&src.to_string_lossy(), names);
         }
 
-        // Restored files' diagnostics are already preserved by `Store::keep`,
-        // so only freshly analyzed files appear here.
+        // Restored files' diagnostics are already preserved by `Store::keep`.
+        // A global post-pass re-derives some of a restored file's warnings
+        // fresh, so it can still appear here with a partial set; caching that
+        // would drop the warnings only its own pass2 produces.
         for (src, diagnostics) in diagnosed {
+            if !self.miss.contains(src) {
+                continue;
+            }
             match fragment_cache::capture_diagnostics(diagnostics) {
                 Ok(blob) => self.store.set_diagnostics(&src.to_string_lossy(), &blob),
                 Err(x) => debug!("Failed to capture diagnostics ({}): {x}", src.display()),
